@@ -38,6 +38,19 @@ CHECKS = {
          "address differences, alignment masks or unread fields. Holds for every hash seed, thread interleaving and prior history.",
     note="Trusted: dependencies' determinism (std, indexmap, kurbo, log); sort-key totality at the two sorted-vec sites; confirmed reasons were read by hand and are keyed per function.",
  ),
+ "C12": dict(
+    technique="must-reset field analysis over MIR (fields enumerated from the ADT), deep interior-mutability type walk, path-sensitive {Closed,Open} pen automaton with callee summaries, who-may-call",
+    design_ref="DESIGN.md §4 C12",
+    text="Decides: every field of glyf::HintInstance is re-derived by setup() on every path (Vec fields cleared before grown, "
+         "scalars assigned; `instructions` via the checked chain reconfigure -> run_program(Font) -> Engine::reset -> both "
+         "DefinitionMap::reset -> fill); every field of HintingInstance is re-derived before every Ok of reconfigure() and `kind` "
+         "is None at every Err exit (reuse == fresh for every reconfigure history); draw entry points take &self and the only "
+         "interior mutability reachable from the shared types is the autohint metrics memo written only by its getter (no "
+         "history/thread dependence); to_path/contour_to_path/emit/finish emit move (seg)* close on every non-Err path; hinting "
+         "configuration reads the location only through effective_coords(). Not decided: finiteness of coordinates, that caller "
+         "scratch memory is initialised before it is read, buffer-size arithmetic.",
+    note="Trusted: rustc MIR/type facts. Rust's borrow rules give 'draw(&self) cannot mutate non-interior fields'.",
+ ),
  "C13": dict(
     technique="path-sensitive typestate over MIR (push/pop stack automaton), dominator guards, recursion-idiom recogniser",
     design_ref="DESIGN.md §4 C13",
